@@ -20,7 +20,7 @@ BYTE_OPS = [('+', 300), ('-', 300), ('*', 258), ('/', 300), ('%', 300), ('/', 51
 def program(ta, tb):
     """ta, tb in int/byte.  Emits source; value lines are produced in a fixed order mirrored by expected()."""
     L = []
-    L.append('int gA = 0; int gB = 0; byte gY = 0; byte[] gYs = [0, 0];')
+    L.append('int gA = 0; int gB = 0; byte gY = 0; byte[] gYs = [0, 0]; int big[300]; bool bigo[520];')
     L.append('empty !d(bool c) { write(\'(\'); !truth_is_defeat(c); write(\')\'); }')
     L.append(f'empty @is_you({ta} a, {tb} b) {{')
     for op in ('+', '-', '*'):
@@ -61,6 +61,9 @@ def program(ta, tb):
     L.append("if (gA is bool) { write('T'); } else { write('F'); } writeln();")
     # unary plus on a global, and ?? with a literal as a condition (truthiness of the chosen operand, not equality with 1)
     L.append("write(+gA); write(' '); write(gB - +gA); write(' '); gB = +gA; write(gB); write(' '); write(- +gA); gB = b;")
+    # narrowing of a value the compiler knows (the static length of a global array) used directly as a word
+    L.append("write((big.length is byte) is int); write(' '); int bl = big.length is byte; write(bl); write(' '); write((big.length is byte) + 1); write((big.length is byte) == 44); "
+             "if ((big.length is byte) < 100) { write('s'); } else { write('l'); } write((bigo.length is byte) + 0); write((bigo.length is byte) is bool); writeln();")
     L.append("if ((a is bool) ?? true) { write('T'); } else { write('F'); } if ((a is bool) ?? false) { write('T'); } else { write('F'); } "
              "if (not ((gA is bool) ?? true)) { write('T'); } else { write('F'); } write((a is bool) ?? true); writeln();")
     # compound assignment on byte targets: the operation is done on ints, the result is narrowed
@@ -81,7 +84,8 @@ def program(ta, tb):
         L.append(f"try {{ bool v = a {op} b; !truth_is_defeat(not v); write('t'); }} undo {{ write('u'); }}")
         L.append(f"try {{ int k = 0; while (a {op} b) {{ k += 1; !truth_is_defeat(k > 1); }} write('w'); }} undo {{ write('u'); }}")
     L.append('writeln();')
-    conds = ['a is bool', 'not (a is bool)', 'p and q', 'p or q', 'not p', 'p == q', '(a < b) or (b < a)', 'p']
+    conds = ['a is bool', 'not (a is bool)', 'p and q', 'p or q', 'not p', 'p == q', '(a < b) or (b < a)', 'p',
+             'not (p or q)', 'not (p and q)', 'not (not p)', 'not (a < b)', 'not ((a < b) or q)', 'not (p and (a <= b))']
     if ta == 'int':
         conds += ['(a is byte) is bool', 'not (a is byte)', '(a is byte) or (b is byte)']
     for c in conds:
@@ -144,6 +148,7 @@ def expected(ta, tb, a, b, W):
     out.append(tf(a != 0) + tf(a == 0) + str(int(a != 0)).encode() + tf(a < b) + str(a & 0xFF).encode() + str(wrap(-a)).encode() + tf(a != 0))
     out.append((b'T' if a != 0 else b'F') + b'\n')
     out.append(f'{a} {wrap(b - a)} {a} {wrap(-a)}'.encode())
+    out.append(b'44 44 45trues8true\n')
     out.append((b'T' if a != 0 else b'F') * 2 + (b'F' if a != 0 else b'T') + tf(a != 0) + b'\n')
     lowb = a & 0xFF
     for op, k in BYTE_OPS:
@@ -163,7 +168,8 @@ def expected(ta, tb, a, b, W):
         d.append(b't' if c else b'u')
         d.append(b'u' if c else b'w')
     d.append(b'\n')
-    dc = [p, not p, p and q, p or q, not p, p == q, a != b, p]
+    dc = [p, not p, p and q, p or q, not p, p == q, a != b, p,
+          not (p or q), not (p and q), p, not (a < b), not ((a < b) or q), not (p and (a <= b))]
     if ta == 'int':
         lb = (a & 0xFF) != 0
         dc += [lb, not lb, lb or ((b & 0xFF) != 0)]
